@@ -53,7 +53,7 @@ TEXT.update({
             "path for a brace target listing _Default) holds and the text filter matches (unit-local effect permissions); FlexiLogger::enabled equals the "
             "specification for plain targets and is never false when an addressed writer accepts the level; WritersHandle::set_new_spec passes "
             "new_spec.max_level() to reconfigure. Kani proves the Level/LevelFilter comparison tables the Verus axioms rest on.",
-            "The `if` direction (the hand-over happens) has no observable post-state behind &self; level_sort (a permutation in descending byte length of the "
+            "level_sort (a permutation in descending byte length of the "
             "names, from which the longest-prefix lemma is proved) and max_level (maximum of the entries' filters) are proved through eager shims for "
             "sort_by / iter().map().max() specified by the closures' contracts (trusted: the shims, `a proper prefix is shorter in bytes`); regex semantics, core::fmt are oracles; enabled() for {..,_Default} with module filters cannot hold "
             "(Metadata carries no module path) and is not claimed."),
@@ -107,7 +107,7 @@ TEXT.update({
 
 TEXT_ADD = {
     "C01": " Also proved: the line assembly of the synchronous StateHandle::write (exactly format output + line ending reaches State::write_buffer, the thread-local buffer is empty on every exit path) and the decision of collision_free_infix_for_rotated_file (a rotated file gets the plain name iff neither it, nor its .gz form, nor any .restart-NNNN sibling exists; otherwise a discriminant above every well-formed sibling's).",
-    "C02": " Logger::build (second half, copied into a wrapper) sets the facade gate from spec.max_level() of the initial specification; logger and handle share one specification lock.",
+    "C02": " FlexiLogger::log is also proved in the `if` direction (token facts: every named registered writer and, when allowed, the default channel are written to); LogSpecBuilder builds exactly its entries (unit specbuilder). Logger::build (second half, copied into a wrapper) sets the facade gate from spec.max_level() of the initial specification; logger and handle share one specification lock.",
     "C04": " LoggerHandle::{flush, shutdown} and Drop for WritersHandle reach the primary writer and every additional writer (token facts, loop invariants); StdWriter::flush in all three modes.",
     "C06": " latest_timestamp_file (which file an appending logger with direct timestamp naming continues) is proved against the listing oracle: configured suffix only, newest parseable time stamp, else now (eager iterator shims R16, proved fold lemma); names of rotated files are never reused (unit collide).",
     "C14": " latest_timestamp_file considers files with the configured suffix only; the cleanup removes listed files only, for every listing length (unit cleanup).",
